@@ -3,7 +3,7 @@
    and the UAPI numbers by auditctl field / operator name. *)
 From Coq Require Import List Ascii NArith ZArith Bool.
 Import ListNotations.
-Require Import Bytes Mach RuleTables RuleDecode Mask RuleEncode Uapi UapiRule Tables TablesLift RuleTablesOk RuleWire.
+Require Import Bytes Mach RuleTables RuleDecode Mask RuleEncode Uapi UapiRule Tables TablesLift RuleTablesOk RuleWire RuleSpecWf.
 Open Scope N_scope.
 
 (* every field and operator code of the rule package equals the UAPI constant for the
@@ -46,6 +46,21 @@ Proof.
   exists u. cbn [flags action fcount mask fields values fflags buflen] in *. rewrite Nat2N.id in H9. repeat split; auto.
 Qed.
 
+(* … and every rule the Build model accepts yields well-formed data, so the statement above holds
+   for the bytes of every accepted rule: any list/action, any filters in any order, any keys *)
+Theorem C06_accepted_rules_are_well_formed : forall s d, data_of_spec s = Some d -> wf_data d.
+Proof. exact data_of_spec_wf. Qed.
+Corollary C06_accepted_rules_decode : forall s b, build_spec s = Some b ->
+  exists d u, data_of_spec s = Some d /\ b = to_wire d /\ uapi_rule_decode b = Some u /\
+    ur_flags u = w_flags d /\ ur_action u = w_action d /\ ur_field_count u = N.of_nat (length (w_triples d)) /\ ur_mask u = w_mask d /\
+    ur_fields u = pad64 (map (fun t => fst (fst t)) (w_triples d)) /\ ur_values u = pad64 (map snd (w_triples d)) /\
+    ur_fieldflags u = pad64 (map (fun t => snd (fst t)) (w_triples d)) /\ ur_buflen u = N.of_nat (length (concat (w_strings d))).
+Proof.
+  intros s b H. unfold build_spec in H. destruct (data_of_spec s) as [d|] eqn:E; [|discriminate]. cbn in H. inversion H; subst b.
+  destruct (C06_wire_exact d (data_of_spec_wf s d E)) as (u & Hu & H1 & H2 & H3 & H4 & H5 & H6 & H7 & H8 & _).
+  exists d, u. repeat split; auto.
+Qed.
+
 (* the syscall mask has exactly the requested bits *)
 Theorem C06_mask_exact : forall l m' k, build_mask (repeat 0 64) l = Some m' -> (testbit_mask m' k = true <-> In k l).
 Proof. exact build_mask_exact. Qed.
@@ -56,5 +71,7 @@ Proof. exact set_syscall_rejects. Qed.
 Print Assumptions C06_tables_are_uapi.
 Print Assumptions C06_layout.
 Print Assumptions C06_wire_exact.
+Print Assumptions C06_accepted_rules_are_well_formed.
+Print Assumptions C06_accepted_rules_decode.
 Print Assumptions C06_mask_exact.
 Print Assumptions C06_mask_range.
